@@ -411,7 +411,7 @@ def gen_cases(rng, tier):
             if j > 0 and rng.random() < 0.3:
                 c["streaming"] = not c["streaming"]
             cases.append(_mk(segs, c))
-    nb, nbig = {"quick": (24, 2), "thorough": (1200, 10), "search": (60, 4)}[tier]
+    nb, nbig = {"quick": (24, 2), "thorough": (400, 6), "search": (60, 4)}[tier]
     cases += _bomb_cases(rng, tier, nb, nbig)
     annotate(cases)
     cases += list(_status_lines(rng, {"quick": 300, "thorough": 20000, "search": 100}[tier]))
